@@ -183,10 +183,9 @@ def binaryOp (op : Tag) (l r : Val) : BinOut :=
 def memberStep (pos : Nat) (left right : CellId) : EM CellId := do
   let rv ← readCell right
   if (← readCell left).kind == .unknown then
-    let h ← getHeap
     match rv with
-    | .num _ => let (a, h') := h.allocArr #[]; setHeap h'; writeCell left (.arr a)
-    | _ => let (o, h') := h.allocObj []; setHeap h'; writeCell left (.obj o)
+    | .num _ => let a ← allocArrM #[]; writeCell left (.arr a)
+    | _ => let o ← allocObjM []; writeCell left (.obj o)
   let lv ← readCell left
   let h ← getHeap
   match getMember h lv rv with
@@ -248,18 +247,14 @@ def evalExpr : Nat → Expr → EM CellId
       callFunction n f.token.pos fnCell argCells
     | .arr _ items => do
       let cells ← evalExprList n items true
-      let h ← getHeap
-      let (a, h') := h.allocArr cells.toArray
-      setHeap h'
+      let a ← allocArrM cells.toArray
       newCell (.arr a)
     | .match_ t v cases => do
       let value ← evalExpr n v
       evalMatchCases n t.pos value cases
     | .obj t items => do
       let members ← evalObjItems n t.pos items []
-      let h ← getHeap
-      let (o, h') := h.allocObj members
-      setHeap h'
+      let o ← allocObjM members
       newCell (.obj o)
 
 /-- `getIdentifier` -/
